@@ -402,7 +402,8 @@ def possible_results(b, live, local=0, atoms=None, depth=0):
         return {'?'}
     for (bb, si, st) in ds:
         if si == 'call':
-            out.add('?')
+            # atoms: {call block: value} for calls whose answer is assumed in this query
+            out.add(atoms[bb] if atoms and bb in atoms else '?')
             continue
         rv = st['rv']
         neg = False
@@ -543,3 +544,17 @@ def loop_carried_user_locals(b, head, ignore=()):
         if hit is not None:
             out.append((l, name, hit))
     return out
+
+
+def converts(c, src_sub, dst_sub):
+    """call c is `Dst::from(x)` / `x.into()` (either spelling of the same conversion) from a type containing
+    src_sub to a type containing dst_sub"""
+    if c is None or not c.targs or len(c.targs) < 2:
+        return False
+    if c.is_('From::from'):
+        dst, src = c.targs[0], c.targs[1]
+    elif c.is_('Into::into'):
+        src, dst = c.targs[0], c.targs[1]
+    else:
+        return False
+    return src_sub in src and dst_sub in dst
